@@ -62,25 +62,50 @@ func c12Intentional(lang string, toks []string, src, perr string, shellAccepts b
 	return ""
 }
 
-// c12SimpleFuncBody reports whether the parser (bash mode) accepted a
-// function declaration whose body is not a compound command (a simple
-// command, or redirections only).
-func c12SimpleFuncBody(src string) bool {
-	f, err := syntax.NewParser(syntax.Variant(syntax.LangBash)).Parse(strings.NewReader(src), "")
-	if err != nil {
-		return false
+// c12FuncBodies reports what kinds of function bodies the parser accepted in
+// src: negated = some body is a negated statement (`f() ! { a; }`); simple =
+// some body is not a compound command (a simple command, redirections only,
+// or another function declaration).
+func c12FuncBodies(lang, src string) (negated, simple bool) {
+	v := syntax.LangBash
+	if lang == "posix" {
+		v = syntax.LangPOSIX
 	}
-	found := false
+	f, err := syntax.NewParser(syntax.Variant(v)).Parse(strings.NewReader(src), "")
+	if err != nil {
+		return false, false
+	}
 	syntax.Walk(f, func(n syntax.Node) bool {
 		if fd, ok := n.(*syntax.FuncDecl); ok && fd.Body != nil {
+			if fd.Body.Negated {
+				negated = true
+			}
 			switch fd.Body.Cmd.(type) {
-			case nil, *syntax.CallExpr:
-				found = true
+			case nil, *syntax.CallExpr, *syntax.FuncDecl:
+				simple = true
 			}
 		}
 		return true
 	})
-	return found
+	return negated, simple
+}
+
+// c12ForNameNewlineThen: the tokens contain `for`, one word, one or more
+// newline tokens and then tok.
+func c12ForNameNewlineThen(toks []string, tok string) bool {
+	for i := 0; i+3 < len(toks); i++ {
+		if toks[i] != "for" || toks[i+2] != "\n" {
+			continue
+		}
+		j := i + 2
+		for j < len(toks) && toks[j] == "\n" {
+			j++
+		}
+		if j < len(toks) && toks[j] == tok {
+			return true
+		}
+	}
+	return false
 }
 
 // c12KeywordCalls returns the set of reserved words that the parser turned
@@ -155,7 +180,11 @@ func c12Class(lang string, toks []string, src, perr string, shellAccepts bool) s
 			}
 			return ""
 		}
-		if lang == "bash" && c12SimpleFuncBody(src) {
+		negated, simple := c12FuncBodies(lang, src)
+		if negated {
+			return "accepts-negated-function-body"
+		}
+		if lang == "bash" && simple {
 			return "bash-accepts-function-body-that-is-not-a-compound-command"
 		}
 		return ""
@@ -163,6 +192,14 @@ func c12Class(lang string, toks []string, src, perr string, shellAccepts bool) s
 	if perr != "" && shellAccepts {
 		if c12KeywordAfterLeadingRedirect(toks) {
 			return "rejects-reserved-word-after-leading-redirect"
+		}
+		if strings.Contains(perr, "`for foo` must be followed by") {
+			if lang == "posix" && c12ForNameNewlineThen(toks, ";") {
+				return "posix-rejects-for-name-newline-semicolon"
+			}
+			if lang == "bash" && c12ForNameNewlineThen(toks, "{") {
+				return "bash-rejects-for-name-newline-brace-group"
+			}
 		}
 	}
 	return ""
